@@ -362,7 +362,8 @@ def C03(run):
 @prop('C04')
 def C04(run):
     count_property(run, dict(rules=ALL, keys=['C04q', 'C04c', 'EXC'], proj=proj_C04, quick=5000, thorough=150000,
-                             families=['plain', 'on_quota', 'symmetric', 'chains', 'sure_losers', 'few_supported']))
+                             families=['plain', 'on_quota', 'symmetric', 'chains', 'sure_losers', 'few_supported', 'exact_threshold',
+                                       'exact_threshold']))
 
 
 @prop('C06')
